@@ -23,8 +23,12 @@ enum GOpt {
     WhereT,
     UnsizedTail,
     Float,
+    /// `<T: IntoIterator>` with fields of the projection type `T::Item` (T := [u8; 2])
+    Assoc,
+    /// a const parameter named like a type in scope: `<const Option: usize>`
+    ConstLikeType,
 }
-const GOPTS: [GOpt; 8] = [GOpt::None, GOpt::T, GOpt::LifetimeT, GOpt::ConstN, GOpt::DefaultT, GOpt::WhereT, GOpt::UnsizedTail, GOpt::Float];
+const GOPTS: [GOpt; 10] = [GOpt::None, GOpt::T, GOpt::LifetimeT, GOpt::ConstN, GOpt::DefaultT, GOpt::WhereT, GOpt::UnsizedTail, GOpt::Float, GOpt::Assoc, GOpt::ConstLikeType];
 
 #[derive(Clone, Copy, PartialEq, Eq, Debug)]
 enum Naming {
@@ -76,7 +80,7 @@ fn applicable(c: &Case) -> Vec<&'static str> {
     match c.gopt {
         GOpt::UnsizedTail => v.retain(|t| !matches!(*t, "Copy" | "Clone" | "Default")),
         GOpt::Float => v.retain(|t| !matches!(*t, "Eq" | "Ord" | "Hash")),
-        GOpt::LifetimeT | GOpt::ConstN => v.retain(|t| *t != "Default"),
+        GOpt::LifetimeT | GOpt::ConstN | GOpt::ConstLikeType => v.retain(|t| *t != "Default"),
         _ => {}
     }
     v
@@ -110,6 +114,14 @@ fn field_ty(c: &Case, vi: usize, fi: usize) -> (&'static str, Vec<&'static str>)
             0 => ("f32", vec!["0.0f32", "1.0f32", "f32::NAN"]),
             _ => ("u8", vec!["0u8", "1u8"]),
         },
+        GOpt::Assoc => match (vi + fi) % 2 {
+            0 => ("T::Item", vec!["0u8", "1u8"]),
+            _ => ("Option<T::Item>", vec!["None", "Some(1u8)"]),
+        },
+        GOpt::ConstLikeType => match (vi + fi) % 2 {
+            0 => ("[u8; Option]", vec!["[0u8, 1]", "[1u8, 0]"]),
+            _ => ("u8", vec!["0u8", "1u8"]),
+        },
     }
 }
 
@@ -123,6 +135,8 @@ fn generics_of(g: GOpt) -> (&'static str, &'static str, &'static str) {
         GOpt::DefaultT => ("<T = u8>", "", ""),
         GOpt::WhereT => ("<T>", "where T: Copy", "<u8>"),
         GOpt::UnsizedTail => ("<T: ?Sized>", "", "<[u8]>"),
+        GOpt::Assoc => ("<T: ::core::iter::IntoIterator>", "", "<[u8; 2]>"),
+        GOpt::ConstLikeType => ("<const Option: usize>", "", "<2>"),
     }
 }
 
@@ -140,6 +154,8 @@ fn uses_all_params(c: &Case) -> bool {
         GOpt::LifetimeT => tys.contains(&"&'a T"),
         GOpt::ConstN => tys.contains(&"[u8; N]"),
         GOpt::UnsizedTail => !c.shape.is_enum && c.shape.variants[0].n >= 1,
+        GOpt::Assoc => tys.iter().any(|t| t.contains("T::Item")),
+        GOpt::ConstLikeType => tys.contains(&"[u8; Option]"),
     }
 }
 
